@@ -2,17 +2,21 @@
 import itertools
 import math
 from fractions import Fraction
-from vcheck import Case, gnlist, gz
+from vcheck import Case, gnlist, gz, gzlist, gzmat
 import tgen
 
 PROP = "C07"
 LEVEL = "proof"
-GEN_UNITS = ["GenUtils"]      # Props/C07w3.v states sparse reshape over the generated tt_sub2ind / tt_ind2sub
-COQ_TARGETS = ["Props/C07.vo", "Props/C07w3.vo", "Model/C07Harness.vo", "Model/C07Harness2.vo", "Model/C07Gen.vo", "Model/Harness.vo"]
-THEOREM_FILES = ["Props/C07.v", "Props/C07w3.v"]
+GEN_UNITS = ["GenUtils", "GenUtils3b", "GenSptensor4", "GenKtensor4"]   # Props/C07Gen4.v + Props/W4C07.v: the generated whole methods sptensor.permute / ktensor.permute; Props/C07w3.v: sparse reshape over the generated tt_sub2ind / tt_ind2sub; Props/C07w4.v: requests over the generated parse_one_d / parse_shape
+COQ_TARGETS = ["Props/C07.vo", "Props/C07w3.vo", "Props/C07w4.vo", "Props/C07Gen4.vo", "Props/W4C07.vo", "Model/C07Gen4.vo", "Model/C07Harness.vo", "Model/C07Harness2.vo", "Model/C07Gen.vo",
+               "Model/C07Req.vo", "Model/C07Impl.vo", "Model/Harness.vo"]
+THEOREM_FILES = ["Props/C07.v", "Props/C07w3.v", "Props/C07w4.v", "Props/C07Gen4.v",
+                 "Props/W4C07.v"]    # W4C07.v is the translator builder's file (sptensor.ones / permute generated, bridged to permute_sp): claimed here like C04 claims W3C04.v
 COQ_IMPORTS = ("From Coq Require Import List ZArith Bool.\n"
                "From PV Require Import Base.Index Base.Perm Np.Array Model.Sparse Model.Repr Model.Harness "
-               "Model.C07Ops Model.C07Harness Model.C07Ops2 Model.C07Harness2 Np.NpZ Gen.GenUtils Model.C07Gen.\n")
+               "Model.C07Ops Model.C07Harness Model.C07Ops2 Model.C07Harness2 Np.NpZ Gen.GenUtils Model.C07Gen "
+               "Np.NpZ2 Np.NpZ3 Np.NpZ3b Gen.GenUtils3b Model.C07Req Model.C07Impl "
+               "Gen.GenSptensor4 Gen.GenKtensor4 Model.W4Ktensor Model.W4Sptensor Model.C07Gen4.\n")
 RULE = ("permute: all N! orders for N<=4 (seeded sample for N=5) on shapes with distinct sizes (2,3,4,5), repeated sizes and "
         "singletons, for dense / sparse / Kruskal (rank 0..3) / Tucker with a dense core / Tucker with a sparse core (core <= "
         "2x2x2x2, stored order sorted|reversed|random, empty core included) holders; reshape: every ordered factorisation "
@@ -32,19 +36,33 @@ RULE = ("permute: all N! orders for N<=4 (seeded sample for N=5) on shapes with 
         "C-ordered, assigned C-ordered and strided factor matrices (and core data) and Kruskal holders right after "
         "normalize(weight_factor = k | 'all'); multi-step histories (op chain: permute;permute, reshape;permute;reshape, "
         "reshape-with-inserted-1s;squeeze, sparse subset-reshape;permute;squeeze, second call on the same object) with every "
-        "intermediate object observed raw")
+        "intermediate object observed raw. Fourth wave: orders that are not permutations (all ones, a negative entry, the numpy "
+        "spelling k-N of a valid mode, a repeated entry, an entry = N, one entry too few / too many) on all five holders; orders "
+        "and target shapes written as list, tuple, (1,N) / (N,1) / (1,N,1) integer arrays, int8 arrays, bare int / np.int64 / 0-d "
+        "array (one mode), and as float arrays / 2-row matrices / nested lists (refused) — the model side runs through the "
+        "GENERATED parse_one_d / parse_shape; negative and zero sizes; sparse subset reshape with mode numbers outside 0..N-1; "
+        "dense holders grown by __setitem__ past their extent (element / slice / subscript-array assignment), float32 / int8 / "
+        "int32 data; sparse holders with float32 / int8 values, int8 / int32 / uint8 subscripts; integer values 2^33..2^52 + k; "
+        "histories of 4-7 random permute / reshape / squeeze steps on one object")
 EXPLANATION = ("Theorems (Props/C07.v) are over the hand-written models Model/C07Ops.v and Model/C07Ops2.v, for all N, shapes, "
                "orders and any value type (Kruskal/Tucker: any commutative ring). The correspondence stream runs pyttb and the "
                "model on the same inputs and compares shape, denotation at every subscript, well-formedness and nnz in Coq; "
                "dense results are compared as raw F-order .data lists and must be Fortran-ordered with .shape = .data.shape; the "
                "argument must be left unchanged. Sparse reshape is additionally evaluated through Model/C07Gen.v, the "
                "transliteration of sptensor.reshape over the GENERATED tt_sub2ind / tt_ind2sub (Props/C07w3.v bridges it to "
-               "the hand model), so an edit of those helpers breaks the proof or the comparison.")
+               "the hand model), so an edit of those helpers breaks the proof or the comparison. Orders / shapes written in a "
+               "specific form are read on the model side by the GENERATED parse_one_d / parse_shape (Model/C07Req.v, "
+               "Props/C07w4.v). Open findings N-C07-3 / N-C07-4 (sptensor.reshape: negative mode numbers, negative sizes on a "
+               "tensor without stored entries) are attributed only on exactly those requests.")
 CORRESPONDENCE_ONLY = []
 ASSUMPTIONS = ["numpy transpose / F-order reshape / squeeze semantics as defined in Np/Array.v (np_transpose, np_reshapeF)",
                "np.ravel_multi_index / np.unravel_index / negative-index wrap as defined in Np/NpZ.v (used by the generated "
                "tt_sub2ind / tt_ind2sub); the statements of sptensor.reshape around the two helper calls are transliterated by hand "
                "(Model/C07Gen.v)",
+               "the numpy / Python primitives of Np/NpZ3.v, NpZ3b.v (ndarray records, squeeze, np.array of a list / tuple) and Np/NpZ4.v, "
+               "NpZ4b.v (np.sort, take, column gather, constructor guards spt_make_ok / kt_make_ok) used by the generated parse_one_d / "
+               "parse_shape / sptensor.permute / ktensor.permute (validated by the primitive-level streams of the translator's own checks "
+               "W3GEN / W4GEN); the translator tools/pyx2v.py itself",
                "ktensor.full / ttensor.full compute tabulate(shape, den) (proved for pyttb's algorithms under C01); C07 only "
                "uses them to route Kruskal / Tucker holders to tensor.reshape / tensor.squeeze, which pyttb does not offer on "
                "ktensor / ttensor"]
@@ -232,8 +250,8 @@ def gen_cases(rng, tier):
         shp = tgen.rand_shape(rng, maxn=4, maxcells=24)
         N = len(shp)
         bad = [rng.randint(0, N) for _ in range(rng.choice([N, N, N + 1, max(1, N - 1)]))]
-        if sorted(bad) == list(range(N)) or all(b == 1 for b in bad):
-            continue        # valid, or the all-ones shortcut of tensor.permute (A-28, reported under C19)
+        if sorted(bad) == list(range(N)):
+            continue        # valid
         data = tgen.rand_dense(rng, shp, 1.0)
         subs, vals = rand_sparse(rng, shp, 0.5)
         cases.append(Case("permute_d", {"shape": shp, "data": data, "p": bad}, True))
@@ -248,11 +266,22 @@ def gen_cases(rng, tier):
         cases.append(Case("reshape_sp", {"shape": shp, "subs": subs, "vals": vals, "new": tgt, "old": None}, True))
     # ================= third wave: layout classes, stored zeros, magnitudes, computed-empty operands, multi-step chains
     cases += gen_w3(rng, big)
+    # ================= fourth wave: invalid orders, request forms, grown / typed holders, wide values, long histories
+    cases += gen_w4(rng, big)
     return cases
 
 
-DENSE_LAYOUTS = ["C", "C_nocopy", "transposed", "sliced", "assignC", "assign_view", "int", "sp_full", "getitem"]
-FACTOR_LAYOUTS = ["C", "assignC", "assign_view"]
+DENSE_LAYOUTS = ["C", "C_nocopy", "transposed", "sliced", "assignC", "assign_view", "int", "sp_full", "getitem",
+                 # wave 4: holders GROWN by __setitem__ past their extent (pyttb then holds a C-ordered np.zeros buffer),
+                 # and element types other than float64 / int64
+                 "grown_elem", "grown_slice", "grown_subs", "grown_empty_elem", "grown_empty_slice", "grown_newmode",
+                 "float32", "int8", "int32"]
+GROWN_LAYOUTS = ["grown_elem", "grown_slice", "grown_subs", "grown_empty_elem", "grown_empty_slice", "grown_newmode"]
+ORDER_FORMS_OK = ["list", "tuple", "row", "col", "cube", "int8"]
+ORDER_FORMS_BAD = ["float", "mat2", "nested"]
+SCALAR_FORMS = ["scalar", "npint", "arr0d"]
+SP_VARIANTS_W4 = ["val_float32", "val_int8", "subs_int8", "subs_int32", "subs_uint8"]
+FACTOR_LAYOUTS = ["C", "assignC", "assign_view", "grown_core"]   # grown_core: Tucker core grown by assignment (C-ordered), handed over with copy=False
 SCALES = [-30, -20, 24, 40]
 
 
@@ -343,7 +372,7 @@ def gen_w3(rng, big):
     for shp in sshapes:
         N, n = len(shp), math.prod(shp)
         facs = facs_of(n)
-        for variant in ["zeros", "zeros", "int", "minus", "times0", "F_nocopy", "view_nocopy", "to_sptensor", "getitem"]:
+        for variant in ["zeros", "zeros", "int", "minus", "times0", "F_nocopy", "view_nocopy", "to_sptensor", "getitem"] + SP_VARIANTS_W4:
             for _ in range(rep):
                 extra = {}
                 if variant == "zeros":
@@ -487,7 +516,254 @@ def gen_w3(rng, big):
     return cases
 
 
+def bad_orders(rng, N):
+    """orders that are not permutations of 0..N-1: all ones (N >= 2; on one mode order [1]), a negative entry, a repeated
+    entry, an entry = N, one entry too few / too many"""
+    out = []
+    out.append([1] * N)
+    p = list(range(N))
+    rng.shuffle(p)
+    q = list(p)
+    q[rng.randrange(N)] = -1
+    out.append(q)
+    q = list(p)
+    k = rng.randrange(N)
+    q[k] = q[k] - N                      # the numpy spelling of the same mode counted from the end
+    out.append(q)
+    if N >= 2:
+        q = list(p)
+        i, j = rng.sample(range(N), 2)
+        q[i] = q[j]
+        out.append(q)
+    q = list(p)
+    q[q.index(N - 1)] = N
+    out.append(q)
+    out.append(p[:-1])
+    out.append(p + [rng.randrange(N + 1)])
+    return [o for o in out if sorted(o) != list(range(N))]
+
+
+def _holders_for(rng, shp):
+    R = rng.choice([1, 2, 3])
+    K = {"weights": [rng.choice([-2, -1, 1, 2, 3]) for _ in range(R)], "factors": [rand_matrix(rng, d, R) for d in shp]}
+    cshape = [rng.randint(1, 2) for _ in shp]
+    core = tgen.rand_dense(rng, cshape, 1.0)
+    T = {"cshape": cshape, "core": core, "factors": [rand_matrix(rng, d, c) for d, c in zip(shp, cshape)]}
+    csubs, cvals = tgen.dense_to_sparse(cshape, core, rng, "random")
+    Ts = {"cshape": cshape, "csubs": csubs, "cvals": cvals, "factors": T["factors"]}
+    return K, T, Ts
+
+
+def _permute_cases(rng, shp, p, nt, **extra):
+    data = tgen.rand_dense(rng, shp, 1.0)
+    subs, vals = rand_sparse(rng, shp, rng.choice([0.0, 0.5, 1.0]))
+    K, T, Ts = _holders_for(rng, shp)
+    return [Case("permute_d", dict({"shape": shp, "data": data, "p": p}, **extra), nt),
+            Case("permute_sp", dict({"shape": shp, "subs": subs, "vals": vals, "p": p}, **extra), nt),
+            Case("permute_k", dict({"shape": shp, "K": K, "p": p}, **extra), nt),
+            Case("permute_t", dict({"shape": shp, "T": T, "p": p}, **extra), nt),
+            Case("permute_st", dict({"shape": shp, "T": Ts, "p": p}, **extra), nt)]
+
+
+def gen_w4(rng, big):
+    cases = []
+    rep = 3 if big else 1
+    # ---------------- invalid orders on every holder (rejected requests): all ones, negative, repeated, out of range, wrong length
+    for shp in [[3], [1], [2, 3], [2, 2], [1, 1], [3, 1, 2], [2, 3, 4], [2, 2, 2, 3]]:
+        for _ in range(rep):
+            for bad in bad_orders(rng, len(shp)):
+                cases += _permute_cases(rng, shp, bad, True)
+    # ---------------- the request as the caller writes it (list, tuple, arrays with singleton axes, narrow integer type, bare
+    # int on one mode; floats / matrices / nested lists are not orders): through the GENERATED parse_one_d
+    for shp in [[2, 3, 4], [3, 1, 2], [4, 3], [3], [1], [2, 2, 3, 2]]:
+        N = len(shp)
+        perms = list(itertools.permutations(range(N)))
+        for form in ORDER_FORMS_OK + ORDER_FORMS_BAD + (SCALAR_FORMS if N == 1 else []):
+            if form in ("mat2", "nested") and N == 1:
+                continue
+            for p in rng.sample(perms, min(len(perms), 2 * rep)):
+                cases += _permute_cases(rng, shp, list(p), math.prod(shp) > 1, pform=form)
+        for bad in bad_orders(rng, N)[:3]:
+            cases += _permute_cases(rng, shp, bad, True, pform=rng.choice(ORDER_FORMS_OK))
+    for v in [1, -1, 2]:                   # bare int that is not mode 0 of a one-mode holder
+        for form in SCALAR_FORMS:
+            cases += _permute_cases(rng, [3], [v], True, pform=form)
+    # ---------------- target shapes as the caller writes them: through the GENERATED parse_shape
+    for shp in [[2, 3, 4], [4, 3], [6], [3, 1, 2], [2, 2, 3]]:
+        n = math.prod(shp)
+        facs = facs_of(n, 4)
+        for form in ORDER_FORMS_OK + ORDER_FORMS_BAD + SCALAR_FORMS:
+            for _ in range(rep):
+                tgt = [n] if form in SCALAR_FORMS else list(rng.choice([f for f in facs if len(f) >= 2] or facs))
+                if form in ("mat2", "nested") and len(tgt) < 2:
+                    continue
+                data = tgen.rand_dense(rng, shp, 1.0)
+                subs, vals = rand_sparse(rng, shp, rng.choice([0.0, 0.5, 1.0]))
+                cases.append(Case("reshape_d", {"shape": shp, "data": data, "new": tgt, "sform": form}, True))
+                cases.append(Case("reshape_sp", {"shape": shp, "subs": subs, "vals": vals, "new": tgt, "old": None, "sform": form}, bool(vals)))
+        # sizes that are not sizes: a negative factor pair with the right product, a zero, the right count with a sign
+        for tgt in [[-shp[0], -(n // shp[0])], [n, 0], [-n], [-1, n]]:
+            data = tgen.rand_dense(rng, shp, 1.0)
+            cases.append(Case("reshape_d", {"shape": shp, "data": data, "newz": tgt, "new": [abs(t) for t in tgt]}, True))
+            subs, vals = rand_sparse(rng, shp, rng.choice([0.0, 0.5, 1.0]))
+            cases.append(Case("reshape_sp", {"shape": shp, "subs": subs, "vals": vals, "newz": tgt, "new": [abs(t) for t in tgt], "old": None}, True))
+    # ---------------- sparse subset reshape with mode numbers that are not modes of the tensor
+    for shp in [[2, 3], [2, 3, 4], [3, 1, 2], [4]]:
+        N = len(shp)
+        for _ in range(2 * rep):
+            k = rng.randrange(N)
+            for oldz in ([k - N], [N + rng.randint(0, 1)]) + (([k - N, (k + 1) % N],) if N >= 2 else ()):
+                m = math.prod(shp[j % N] for j in oldz)
+                subs, vals = rand_sparse(rng, shp, rng.choice([0.0, 0.6, 1.0]))
+                cases.append(Case("reshape_sp", {"shape": shp, "subs": subs, "vals": vals, "new": list(rng.choice(facs_of(m))),
+                                                 "old": [j % N for j in oldz], "oldz": oldz}, True))
+    # ---------------- old_modes written as list / tuple / int8 array (np.atleast_1d reads them alike), any listed order
+    for shp in [[2, 3, 4], [3, 1, 2], [2, 2, 3, 2]]:
+        N = len(shp)
+        for form in ["list", "tuple", "int8"]:
+            for _ in range(2 * rep):
+                old = rng.sample(range(N), rng.randint(1, N))
+                m = math.prod(shp[k] for k in old)
+                subs, vals = rand_sparse(rng, shp, rng.choice([0.0, 0.5, 1.0]))
+                cases.append(Case("reshape_sp", {"shape": shp, "subs": subs, "vals": vals, "new": with_ones(rng, rng.choice(facs_of(m))),
+                                                 "old": old, "oform": form}, bool(vals)))
+    # ---------------- dense holders with a mode of size 0 (no element; sptensor refuses such shapes): permute and reshape
+    for shp in [[2, 0], [0, 3], [2, 0, 3], [1, 0], [3, 0, 1, 2]]:
+        N = len(shp)
+        for p in rng.sample(list(itertools.permutations(range(N))), min(math.factorial(N), 3 * rep)):
+            cases.append(Case("permute_d", {"shape": shp, "data": [], "p": list(p)}, False))
+        for tgt in [[0], [0, 5], [3, 0, 2], shp[::-1]]:
+            cases.append(Case("reshape_d", {"shape": shp, "data": [], "new": tgt}, False))
+        cases.append(Case("reshape_d", {"shape": shp, "data": [], "new": [1]}, False))        # 0 cells -> 1 cell: refused
+        cases.append(Case("chain", {"holder": "d", "shape": shp, "data": [], "law": None, "layout": None,
+                                    "steps": [["permute", list(range(N))[::-1]], ["reshape", [0, 2]], ["permute", [1, 0]]]}, False))
+    # ---------------- wide values: integers that need more than 24 / 32 bits (a detour through a narrower type shows)
+    for shp in [[2, 3, 2], [3, 1, 2], [4, 3], [5]]:
+        N, n = len(shp), math.prod(shp)
+        for _ in range(rep):
+            wide = [rng.choice([-1, 1]) * (2 ** rng.choice([33, 40, 52]) + rng.randint(1, 9)) if rng.random() < 0.8 else 0 for _ in range(n)]
+            p = list(range(N))
+            rng.shuffle(p)
+            cases.append(Case("permute_d", {"shape": shp, "data": wide, "p": p}, n > 1))
+            cases.append(Case("reshape_d", {"shape": shp, "data": wide, "new": list(rng.choice(facs_of(n)))}, n > 1))
+            cases.append(Case("squeeze_d", {"shape": shp, "data": wide}, 1 in shp))
+            subs, vals = tgen.dense_to_sparse(shp, wide, rng, "random")
+            cases.append(Case("permute_sp", {"shape": shp, "subs": subs, "vals": vals, "p": p}, bool(vals)))
+            cases.append(Case("reshape_sp", {"shape": shp, "subs": subs, "vals": vals, "new": list(rng.choice(facs_of(n))), "old": None}, bool(vals)))
+            cases.append(Case("squeeze_sp", {"shape": shp, "subs": subs, "vals": vals}, bool(vals) and 1 in shp))
+    # ---------------- holders grown by assignment in EVERY dense stream: the three chain laws and the dense route of the
+    # sparse-subset agreement (permute_d / reshape_d / squeeze_d get them through DENSE_LAYOUTS in gen_w3)
+    for shp in [[2, 3, 4], [3, 2], [2, 1, 3], [4], [2, 2, 3, 2]]:
+        N, n = len(shp), math.prod(shp)
+        perms = list(itertools.permutations(range(N)))
+        facs = facs_of(n, 4)
+        for lay in GROWN_LAYOUTS:
+            for _ in range(rep):
+                data = tgen.rand_dense(rng, shp, rng.choice([0.7, 1.0]))
+                p, q = list(rng.choice(perms)), list(rng.choice(perms))
+                cases.append(Case("chain", {"holder": "d", "shape": shp, "data": data, "steps": [["permute", p], ["permute", q]],
+                                            "law": "pp", "layout": lay}, any(data)))
+                s1 = with_ones(rng, list(rng.choice(facs)))
+                p1 = list(range(len(s1)))
+                rng.shuffle(p1)
+                cases.append(Case("chain", {"holder": "d", "shape": shp, "data": data, "law": None, "layout": lay,
+                                            "steps": [["reshape", s1], ["permute", p1], ["reshape", list(rng.choice(facs))]]}, any(data)))
+                cases.append(Case("chain", {"holder": "d", "shape": shp, "data": data, "law": "rs", "layout": lay,
+                                            "steps": [["reshape", with_ones(rng, shp)], ["squeeze"]]}, any(data)))
+                cases.append(Case("chain", {"holder": "d", "shape": shp, "data": data, "law": None, "layout": lay,
+                                            "steps": [["squeeze"], ["reshape", list(rng.choice(facs))]] if 1 in shp and nonones(shp) else
+                                                     [["permute", p], ["reshape", list(rng.choice(facs))], ["squeeze"]]}, any(data)))
+                if N >= 2:
+                    old = rng.sample(range(N), rng.randint(1, N))
+                    m = math.prod(shp[k] for k in old)
+                    subs, vals = tgen.dense_to_sparse(shp, data, rng, "random")
+                    cases.append(Case("reshape_agree", {"shape": shp, "data": data, "subs": subs, "vals": vals, "layout": lay,
+                                                        "new": list(rng.choice(facs_of(m))), "old": old}, any(data)))
+    # ---------------- long histories on one object: 4..7 random steps of permute / reshape / squeeze (dense in every layout,
+    # sparse in every stored variant); every intermediate object is observed raw
+    for shp in [[2, 3, 4], [3, 2, 2], [2, 1, 3, 2], [4, 3], [1, 6, 1], [2, 2, 3, 2]]:
+        n = math.prod(shp)
+        for _ in range(6 if big else 3):
+            cur = list(shp)
+            steps = []
+            for _k in range(rng.randint(4, 7)):
+                kind = rng.choice(["permute", "reshape", "reshape1", "squeeze"])
+                if kind == "permute" and len(cur) >= 2:
+                    q = list(range(len(cur)))
+                    rng.shuffle(q)
+                    steps.append(["permute", q])
+                    cur = [cur[k] for k in q]
+                elif kind == "squeeze" and 1 in cur and nonones(cur):
+                    steps.append(["squeeze"])
+                    cur = nonones(cur)
+                else:
+                    t = list(rng.choice(facs_of(n, 4)))
+                    if kind == "reshape1":
+                        t = with_ones(rng, t)
+                    steps.append(["reshape", t])
+                    cur = t
+            data = tgen.rand_dense(rng, shp, rng.choice([0.6, 1.0]))
+            cases.append(Case("chain", {"holder": "d", "shape": shp, "data": data, "steps": steps, "law": None,
+                                        "layout": rng.choice([None] + DENSE_LAYOUTS)}, any(data)))
+            subs, vals = rand_sparse(rng, shp, rng.choice([0.0, 0.4, 0.8]))
+            ex = rng.choice([{}, {}, {"via": "F_nocopy"}, {"via": "to_sptensor"}, {"via": "subs_int8"}, {"via": "val_float32"}])
+            cases.append(Case("chain", dict({"holder": "sp", "shape": shp, "subs": subs, "vals": vals, "steps": steps, "law": None}, **ex), bool(vals)))
+    return cases
+
+
 # ---------------------------------------------------------------------------------------- pyttb side
+def _int_arg(np, v, form):
+    """the integer vector v (an order or a target shape) as the caller may write it"""
+    if form is None or form == "arr":
+        return np.array(v, dtype=int)
+    if form == "list":
+        return [int(x) for x in v]
+    if form == "tuple":
+        return tuple(int(x) for x in v)
+    if form == "row":
+        return np.array([v], dtype=int)
+    if form == "col":
+        return np.array([[x] for x in v], dtype=int)
+    if form == "cube":
+        return np.array([[[x] for x in v]], dtype=int)
+    if form == "int8":
+        return np.array(v, dtype=np.int8)
+    if form == "float":
+        return np.array(v, dtype=float)
+    if form == "mat2":
+        return np.array([v, v], dtype=int)
+    if form == "nested":
+        return [[int(x) for x in v]]
+    if form == "scalar":
+        return int(v[0])
+    if form == "npint":
+        return np.int64(v[0])
+    if form == "arr0d":
+        return np.array(int(v[0]))
+    raise ValueError(form)
+
+
+def _gshp(v, form):
+    """the same argument as a Gallina pyshp literal (Np/NpZ3b.v)"""
+    zl = "[" + "; ".join(gz(x) for x in v) + "]" if v else "(@nil Z)"
+    nf = "[" + "; ".join(f"NFin {gz(x)}" for x in v) + "]" if v else "(@nil npnum)"
+    n = len(v)
+    if form in ("list", "tuple"):
+        el = "[" + "; ".join(f"EInt {gz(x)}" for x in v) + "]" if v else "(@nil pyelem)"
+        return f"({'SList' if form == 'list' else 'STuple'} {el})"
+    if form == "nested":
+        return f"(SList [EList {zl}])"
+    if form in ("scalar", "npint"):
+        return f"(SInt {gz(v[0])})"
+    if form == "arr0d":
+        return f"(SArr (mknd (@nil Z) DInt [NFin {gz(v[0])}]))"
+    shape = {"arr": [n], "int8": [n], "float": [n], "row": [1, n], "col": [n, 1], "cube": [1, n, 1], "mat2": [2, n]}[form]
+    if form == "mat2":
+        nf = "[" + "; ".join(f"NFin {gz(x)}" for x in list(v) + list(v)) + "]"
+    kind = "DFloat" if form == "float" else "DInt"
+    return f"(SArr (mknd [{'; '.join(gz(d) for d in shape)}] {kind} {nf}))"
+
+
 def _noncontig_view(np, arr):
     """a strided (neither C- nor F-contiguous) view holding the same logical values"""
     big = np.full([2 * d + 1 for d in arr.shape], 77, dtype=arr.dtype)
@@ -516,8 +792,38 @@ def _mk_dense(ttb, np, a):
     if lay == "int":
         arr = arr.astype(int)
     shape = tuple(a["shape"])
-    if lay in (None, "F", "int"):
+    if lay in ("float32", "int8", "int32"):      # element types other than float64 / int64 (small integers: exact in each)
+        arr = arr.astype({"float32": np.float32, "int8": np.int8, "int32": np.int32}[lay])
+    if lay in (None, "F", "int", "float32", "int8", "int32"):
         T = ttb.tensor(arr.copy(order="F"), shape, copy=True)
+    elif lay in ("grown_empty_elem", "grown_empty_slice"):
+        # an EMPTY ttb.tensor() filled by assignment (element by element, far corner first / one slice assignment)
+        T = ttb.tensor()
+        if lay == "grown_empty_slice":
+            T[tuple(slice(0, d) for d in shape)] = arr
+        else:
+            for i in sorted(tgen.all_subs(a["shape"]), key=lambda i: -sum(i)):
+                T[tuple(i)] = arr[tuple(i)]
+    elif lay == "grown_newmode" and len(shape) >= 2:
+        # the holder starts with one mode fewer (the first slab of the last mode) and gains the last mode by assignment
+        T = ttb.tensor(arr[..., 0].copy(order="F"), copy=True)
+        T[tuple(slice(0, d) for d in shape)] = arr
+    elif lay in ("grown_elem", "grown_slice", "grown_subs", "grown_newmode"):
+        # the holder starts one shorter in every mode of size > 1 and is GROWN by assignment past its extent
+        # (tensor.__setitem__ then replaces .data by a fresh buffer); afterwards it holds the same logical array
+        blk = tuple(slice(0, max(d - 1, 1)) for d in shape)
+        T = ttb.tensor(arr[blk].copy(order="F"), copy=True)
+        rest = [i for i in tgen.all_subs(a["shape"]) if any(x >= max(d - 1, 1) for x, d in zip(i, shape))]
+        rest.sort(key=lambda i: -sum(i))          # the far corner first: one growth step, then in-range assignments
+        if lay in ("grown_slice", "grown_newmode"):
+            T[tuple(slice(0, d) for d in shape)] = arr
+        elif lay == "grown_elem":
+            for i in rest:
+                T[tuple(i)] = arr[tuple(i)]
+        elif rest:
+            T[np.array(rest[:1], dtype=int)] = np.array([arr[tuple(rest[0])]])
+            if rest[1:]:
+                T[np.array(rest[1:], dtype=int)] = np.array([arr[tuple(i)] for i in rest[1:]])
     elif lay == "C":                 # built from C-ordered data
         T = ttb.tensor(np.ascontiguousarray(arr))
     elif lay == "C_nocopy":
@@ -561,6 +867,10 @@ def _mk_sp(ttb, np, a):
     if _scale(a) is not None:
         v_ = v_ * _scale(a)
     via = a.get("via")
+    if via in ("val_float32", "val_int8"):       # element types of the values other than float64 / int64
+        return ttb.sptensor(s_, v_.astype(np.float32 if via == "val_float32" else np.int8), tuple(shape), copy=True)
+    if via in ("subs_int8", "subs_int32", "subs_uint8"):   # narrow subscript types
+        return ttb.sptensor(s_.astype({"subs_int8": np.int8, "subs_int32": np.int32, "subs_uint8": np.uint8}[via]), v_, tuple(shape), copy=True)
     if via == "F_nocopy":            # Fortran-ordered subscript array handed over without a copy
         return ttb.sptensor(np.asfortranarray(s_), v_, tuple(shape), copy=False)
     if via == "view_nocopy":         # strided views of larger arrays, no copy
@@ -630,6 +940,9 @@ def _mk_t(ttb, np, T, shape, lay=None):
     fm = [np.array(f, dtype=float).reshape((d, c)) for f, d, c in zip(T["factors"], shape, T["cshape"])]
     if lay == "C":
         return ttb.ttensor(core, [np.ascontiguousarray(f) for f in fm], copy=True)
+    if lay == "grown_core":
+        core = _mk_dense(ttb, np, {"shape": T["cshape"], "data": T["core"], "layout": "grown_slice"})[0]
+        return ttb.ttensor(core, [f.copy() for f in fm], copy=False)
     Tt = ttb.ttensor(core, [f.copy() for f in fm], copy=True)
     if lay in ("assignC", "assign_view"):
         for n in range(len(fm)):
@@ -761,9 +1074,9 @@ def run_impl(c):
             if not isinstance(T, ttb.tensor) or tuple(T.shape) != tuple(a["shape"]) or not np.array_equal(T.data, arr):
                 return {"skip": True}       # the producing operation did not give the intended operand: not C07's business
             if c.op == "permute_d":
-                R = T.permute(np.array(a["p"], dtype=int))
+                R = T.permute(_int_arg(np, a["p"], a.get("pform")))
             elif c.op == "reshape_d":
-                R = T.reshape(tuple(a["new"]))
+                R = T.reshape(tuple(a["newz"]) if "newz" in a else _int_arg(np, a["new"], a["sform"]) if a.get("sform") else tuple(a["new"]))
             else:
                 R = T.squeeze()
             o = {"ok": _obs_d(np, R)} if isinstance(R, ttb.tensor) else {"scalar": tgen.exact(R)}
@@ -778,15 +1091,17 @@ def run_impl(c):
                 return pre
             s0, v0, sh0 = S.subs.copy(), S.vals.copy(), tuple(S.shape)
             if c.op == "permute_sp":
-                R = S.permute(np.array(a["p"], dtype=int))
+                R = S.permute(_int_arg(np, a["p"], a.get("pform")))
             elif c.op == "squeeze_sp":
                 R = S.squeeze()
+            elif "oldz" in a:
+                R = S.reshape(tuple(a["new"]), np.array(a["oldz"], dtype=int))
             elif a["old"] is None:
-                R = S.reshape(tuple(a["new"]))
+                R = S.reshape(tuple(a["newz"]) if "newz" in a else _int_arg(np, a["new"], a["sform"]) if a.get("sform") else tuple(a["new"]))
             elif a.get("old_int"):
                 R = S.reshape(tuple(a["new"]), int(a["old"][0]))
             else:
-                R = S.reshape(tuple(a["new"]), np.array(a["old"], dtype=int))
+                R = S.reshape(tuple(a["new"]), _int_arg(np, a["old"], a.get("oform")))
             o = {"ok": tgen.obs_sparse(np, R)} if isinstance(R, ttb.sptensor) else {"scalar": tgen.exact(R)}
             if tuple(S.shape) != sh0 or not np.array_equal(S.subs, s0) or not np.array_equal(S.vals, v0):
                 o["input_changed"] = True
@@ -799,16 +1114,16 @@ def run_impl(c):
                 K.normalize(weight_factor=a["normalize"])
                 o["pre"] = _obs_k(np, K)
                 o["pre_c"] = [bool(f.flags["C_CONTIGUOUS"]) for f in K.factor_matrices]
-            R = K.permute(np.array(a["p"], dtype=int))
+            R = K.permute(_int_arg(np, a["p"], a.get("pform")))
             o["ok"] = _obs_k(np, R)
             return o
         if c.op == "permute_t":
             T = _mk_t(ttb, np, a["T"], a["shape"], a.get("flayout"))
-            R = T.permute(np.array(a["p"], dtype=int))
+            R = T.permute(_int_arg(np, a["p"], a.get("pform")))
             return {"ok": {"core": _obs_d(np, R.core), "factors": [tgen.obs_matrix(np, f) for f in R.factor_matrices]}}
         if c.op == "permute_st":
             T = _mk_st(ttb, np, a["T"], a["shape"], a.get("flayout"))
-            R = T.permute(np.array(a["p"], dtype=int))
+            R = T.permute(_int_arg(np, a["p"], a.get("pform")))
             if not isinstance(R.core, ttb.sptensor):
                 return {"exc": "CoreNotSparse", "msg": type(R.core).__name__}
             return {"ok": {"core": tgen.obs_sparse(np, R.core), "factors": [tgen.obs_matrix(np, f) for f in R.factor_matrices]}}
@@ -827,7 +1142,8 @@ def run_impl(c):
             keep, q = _rs_order(len(a["shape"]), a["old"])
             out = {}
             try:
-                D = tgen.mk_tensor(ttb, np, a["shape"], a["data"]).permute(np.array(q, dtype=int))
+                D0 = _mk_dense(ttb, np, a)[0] if a.get("layout") else tgen.mk_tensor(ttb, np, a["shape"], a["data"])
+                D = D0.permute(np.array(q, dtype=int))
                 out["dense"] = _obs_d(np, D.reshape(tuple([a["shape"][k] for k in keep] + list(a["new"]))))
             except Exception as ex:
                 out["dense_exc"] = type(ex).__name__
@@ -969,12 +1285,44 @@ def _chain_check(a, o):
             parts.append(_step_check(kind, T0, ["reshape", tgt], last))
         else:
             parts.append(_step_check(kind, T0, ["squeeze"], last))
+    if kind in ("d", "sp") and all(st[0] in ("permute", "reshape", "squeeze") for st in a["steps"]):
+        sl = "[" + "; ".join(f"StPermute {gnlist(st[1])}" if st[0] == "permute" else f"StReshape {gnlist(st[1])}" if st[0] == "reshape"
+                             else "StSqueeze" for st in a["steps"]) + "]"
+        run, cmp_ = ("run_d 0%Z", "sqd_ok") if kind == "d" else ("run_sp 0%Z", "sqs_ok")
+        if last["kind"] == "scalar":
+            fin = f"(SqScalar {gz(last['ob'])})" if isinstance(last["ob"], int) else None
+        else:
+            lit = _lit(kind, last["ob"]) if last["kind"] == kind else None
+            fin = f"(SqT {lit})" if lit else None
+        parts.append(f"match {run} {T0} {sl} with Some r => {cmp_} r {fin} | None => false end" if fin else "false")
     if "false" in parts:
         return "false"
     e = parts[-1]
     for x in reversed(parts[:-1]):
         e = f"andb ({x}) ({e})"
     return e
+
+
+def _gzl(v):
+    return "[" + "; ".join(gz(x) for x in v) + "]" if v else "(@nil Z)"
+
+
+def _perm_call(fn, a):
+    """model call of a permute: the order as a nat list, or — when the request is written in a specific form or has a negative
+    entry — through the request level of Model/C07Req.v (generated parse_one_d; negative entries)"""
+    if a.get("pform"):
+        return f"(with_order ({fn}) {_gshp(a['p'], a['pform'])})"
+    if any(x < 0 for x in a["p"]):
+        return f"(with_order_z ({fn}) {_gzl(a['p'])})"
+    return f"({fn} {gnlist(a['p'])})"
+
+
+def _shape_call(fn, a):
+    if "newz" in a:
+        return f"(with_order_z ({fn}) {_gzl(a['newz'])})"
+    if a.get("sform"):
+        return f"(with_shape ({fn}) {_gshp(a['new'], a['sform'])})"
+    return f"({fn} {gnlist(a['new'])})"
 
 
 def coq_check(c, o):
@@ -991,24 +1339,34 @@ def coq_check(c, o):
         if not exc and not _d_ok(o["ok"]):
             return "false"
         obs = "None" if exc else f"(Some {tgen.gdense(o['ok']['shape'], o['ok']['data'])})"
-        return f"od_ok (permute_d 0%Z {T} {gnlist(a['p'])}) {obs}"
+        return f"od_ok {_perm_call(f'permute_d 0%Z {T}', a)} {obs}"
     if c.op == "reshape_d":
         T = tgen.gdense(a["shape"], a["data"])
         if not exc and not _d_ok(o["ok"]):
             return "false"
         obs = "None" if exc else f"(Some {tgen.gdense(o['ok']['shape'], o['ok']['data'])})"
-        return f"od_ok (reshape_d 0%Z {T} {gnlist(a['new'])}) {obs}"
+        return f"od_ok {_shape_call(f'reshape_d 0%Z {T}', a)} {obs}"
     if c.op in ("permute_sp", "reshape_sp"):
         S = tgen.gsparse(a["shape"], *_eff_sparse(a, o))
         if not exc:
             ob = o["ok"]
-            if not tgen.all_int(ob["vals"]) or ob["nnz"] != len(ob["subs"]):
+            if not tgen.all_int(ob["vals"]) or ob["nnz"] != len(ob["subs"]) or any(d < 0 for d in ob["shape"]):
                 return "false"
             obs = f"(Some {tgen.gsparse(ob['shape'], ob['subs'], ob['vals'])})"
         else:
             obs = "None"
-        if c.op == "permute_sp":
-            return f"os_ok (permute_sp {S} {gnlist(a['p'])}) {obs}"
+        if c.op == "permute_sp":      # operation model and the return statements as written (Model/C07Impl.v)
+            e = f"andb (os_ok {_perm_call(f'permute_sp {S}', a)} {obs}) (os_ok {_perm_call(f'permute_sp_impl {S}', a)} {obs})"
+            es, ev = _eff_sparse(a, o)
+            if a.get("pform") and ev:      # request -> GENERATED parse_one_d -> GENERATED sptensor.permute (Model/C07Gen4.v)
+                Z = f"(mkspt {gzmat(es)} {gzlist(ev)} {gzlist(a['shape'])})"
+                e = (f"andb ({e}) (match sptensor_permute_req {Z} {_gshp(a['p'], a['pform'])} with "
+                     f"Ok t => os_ok (Some (to_Sp t)) {obs} | Err => os_ok None {obs} end)")
+            return e
+        if "oldz" in a:            # mode numbers as written (negative / out of range: not modes of the tensor)
+            return f"os_ok (reshape_sp_req {S} {_gshp(a['new'], 'tuple')} {_gzl(a['oldz'])}) {obs}"
+        if "newz" in a or a.get("sform"):
+            return f"os_ok {_shape_call(f'reshape_sp_all {S}', a)} {obs}"
         # hand model and the transliteration over the GENERATED tt_sub2ind / tt_ind2sub (Model/C07Gen.v) against pyttb
         oldm = a["old"] if a["old"] is not None else list(range(len(a["shape"])))
         gen = f"os_ok (res_opt (reshape_sp_gen {S} {gnlist(a['new'])} {gnlist(oldm)})) {obs}"
@@ -1021,33 +1379,39 @@ def coq_check(c, o):
             return "false"      # normalize(weight_factor) of single-entry columns stays inside the integers
         K = _gk_shaped(Kin, a["shape"])
         if exc:
-            return f"ok_ok (permute_k {K} {gnlist(a['p'])}) None"
-        ob = o["ok"]
-        if not tgen.all_int(ob["weights"]) or not all(tgen.all_int(r) for f in ob["factors"] for r in f):
-            return "false"
-        oshape = [a["shape"][k] for k in a["p"]]
-        return f"ok_ok (permute_k {K} {gnlist(a['p'])}) (Some {_gk_shaped(ob, oshape)})"
+            kobs = "None"
+        else:
+            ob = o["ok"]
+            if not tgen.all_int(ob["weights"]) or not all(tgen.all_int(r) for f in ob["factors"] for r in f):
+                return "false"
+            kobs = f"(Some {_gk_shaped(ob, [len(f) for f in ob['factors']])})"
+        e = f"ok_ok {_perm_call(f'permute_k {K}', a)} {kobs}"
+        if a.get("pform") and Kin["weights"]:     # request -> GENERATED parse_one_d -> GENERATED ktensor.permute (Model/C07Gen4.v)
+            Z = f"(mkkt {gzlist(Kin['weights'])} [{'; '.join(gzmat(f) for f in Kin['factors'])}])"
+            e = (f"andb ({e}) (match ktensor_permute_req {Z} {_gshp(a['p'], a['pform'])} with "
+                 f"Ok k => ok_ok (Some (to_K k)) {kobs} | Err => ok_ok None {kobs} end)")
+        return e
     if c.op == "permute_t":
         T = a["T"]
         G = f"(mkT {tgen.gdense(T['cshape'], T['core'])} {_gmat_list(T['factors'])})"
         if exc:
-            return f"ot_ok (permute_t 0%Z {G} {gnlist(a['p'])}) None"
+            return f"ot_ok {_perm_call(f'permute_t 0%Z {G}', a)} None"
         ob = o["ok"]
         if not _d_ok(ob["core"]) or not all(tgen.all_int(r) for f in ob["factors"] for r in f):
             return "false"
         O = f"(mkT {tgen.gdense(ob['core']['shape'], ob['core']['data'])} {_gmat_list(ob['factors'])})"
-        return f"ot_ok (permute_t 0%Z {G} {gnlist(a['p'])}) (Some {O})"
+        return f"ot_ok {_perm_call(f'permute_t 0%Z {G}', a)} (Some {O})"
     if c.op == "permute_st":
         T = a["T"]
         G = f"(mkST {tgen.gsparse(T['cshape'], T['csubs'], T['cvals'])} {_gmat_list(T['factors'])})"
         if exc:
-            return f"ost_ok (permute_st {G} {gnlist(a['p'])}) None" if o["exc"] != "CoreNotSparse" else "false"
+            return f"ost_ok {_perm_call(f'permute_st {G}', a)} None" if o["exc"] != "CoreNotSparse" else "false"
         ob = o["ok"]
         oc = ob["core"]
         if not tgen.all_int(oc["vals"]) or oc["nnz"] != len(oc["subs"]) or not all(tgen.all_int(r) for f in ob["factors"] for r in f):
             return "false"
         O = f"(mkST {tgen.gsparse(oc['shape'], oc['subs'], oc['vals'])} {_gmat_list(ob['factors'])})"
-        return f"ost_ok (permute_st {G} {gnlist(a['p'])}) (Some {O})"
+        return f"ost_ok {_perm_call(f'permute_st {G}', a)} (Some {O})"
     if c.op == "reshape_sp_rt":
         S = tgen.gsparse(a["shape"], *_eff_sparse(a, o))
         if exc:
@@ -1102,11 +1466,17 @@ def coq_check(c, o):
         if exc:
             return "false"
         if "scalar" in o:
-            return f"sqs_ok (squeeze_sp 0%Z {S}) (SqScalar {gz(o['scalar'])})" if isinstance(o["scalar"], int) else "false"
-        ob = o["ok"]
-        if not tgen.all_int(ob["vals"]) or ob["nnz"] != len(ob["subs"]):
-            return "false"
-        return f"sqs_ok (squeeze_sp 0%Z {S}) (SqT {tgen.gsparse(ob['shape'], ob['subs'], ob['vals'])})"
+            if not isinstance(o["scalar"], int):
+                return "false"
+            fin = f"(SqScalar {gz(o['scalar'])})"
+        else:
+            ob = o["ok"]
+            if not tgen.all_int(ob["vals"]) or ob["nnz"] != len(ob["subs"]):
+                return "false"
+            fin = f"(SqT {tgen.gsparse(ob['shape'], ob['subs'], ob['vals'])})"
+        # operation model and sptensor.squeeze's return statements as written (Model/C07Impl.v)
+        return (f"andb (sqs_ok (squeeze_sp 0%Z {S}) {fin}) "
+                f"(match squeeze_sp_impl 0%Z {S} with Some r => sqs_ok r {fin} | None => false end)")
     raise ValueError(c.op)
 
 
@@ -1308,6 +1678,12 @@ def oracle(c, o):
         return "the argument was modified by the call"
     if c.op == "chain":
         return _chain_oracle(a, o)
+    if (a.get("pform") in ORDER_FORMS_BAD or a.get("sform") in ORDER_FORMS_BAD) and "exc" in o:
+        return None            # a float / matrix / nested list is not an order or a shape: refusing it is fine
+    if "newz" in a and any(x < 0 for x in a["newz"]):
+        return None if "exc" in o else f"negative sizes {a['newz']} accepted: result shape {o.get('ok', {}).get('shape')}"
+    if "oldz" in a and "exc" in o:
+        return None            # a mode number outside 0..N-1 refused
     zeros_ok = 0 in a.get("vals", [])
     for dob in [o.get("ok"), o.get("dense"), (o.get("ok") or {}).get("core") if isinstance(o.get("ok"), dict) else None]:
         if isinstance(dob, dict) and "data" in dob and "shape" in dob:
@@ -1475,6 +1851,69 @@ def oracle(c, o):
 
 
 # ---------------------------------------------------------------------------------------- known findings
-# none open.  N-C07-1 (squeeze of an empty all-singleton sptensor) and N-C07-2 (int old_modes) are repaired in /repo;
+def _trig_neg_old(c):
+    return c.op == "reshape_sp" and any(x < 0 for x in c.args.get("oldz", []))
+
+
+def _trig_empty_neg_sizes(c):
+    a = c.args
+    return (c.op == "reshape_sp" and "newz" in a and any(x < 0 for x in a["newz"]) and not a["vals"]
+            and math.prod(a["newz"]) == math.prod(a["shape"]))
+
+
+TRIGGERS = {"reshape_negative_old_modes": _trig_neg_old, "reshape_empty_negative_sizes": _trig_empty_neg_sizes}
+
+
+def _wit_neg_old():
+    import numpy as np
+    import pyttb as ttb
+    S = ttb.sptensor(np.array([[0, 1], [1, 2]]), np.array([[5.0], [6.0]]), (2, 3))
+    try:
+        R = S.reshape((3,), -1)
+    except Exception:
+        return None
+    if tuple(int(d) for d in R.shape) == (2, 3):
+        return None
+    return f"sptensor((2,3)).reshape((3,), old_modes=-1) returned shape {tuple(int(d) for d in R.shape)}, subs {R.subs.tolist()}"
+
+
+def _wit_empty_neg_sizes():
+    import numpy as np
+    import pyttb as ttb
+    try:
+        R = ttb.sptensor(shape=(2, 3)).reshape((-2, -3))
+    except Exception:
+        return None
+    return f"sptensor(shape=(2,3)).reshape((-2,-3)) returned a tensor of shape {tuple(int(d) for d in R.shape)}"
+
+
+def _wit_bool_order():
+    import numpy as np
+    import pyttb as ttb
+    S = ttb.sptensor(np.array([[0, 1], [1, 2]]), np.array([[5.0], [6.0]]), (2, 3))
+    try:
+        R = S.permute([True, False])
+    except Exception:
+        return None
+    if tuple(int(d) for d in R.shape) == (3, 2):
+        return None
+    return f"sptensor((2,3)).permute([True, False]) returned shape {tuple(int(d) for d in R.shape)}, subs {R.subs.tolist()}"
+
+
+def _wit_squeeze_zero_mode():
+    import numpy as np
+    import pyttb as ttb
+    try:
+        R = ttb.tensor(np.zeros((1, 0))).squeeze()
+    except Exception as ex:
+        return f"tensor(np.zeros((1,0))).squeeze() raised {type(ex).__name__}: {ex}"
+    return None if isinstance(R, ttb.tensor) and tuple(R.data.shape) == (0,) else f"tensor((1,0)).squeeze() returned {R!r}"
+
+
+WITNESSES = {"N-C07-3": _wit_neg_old, "N-C07-4": _wit_empty_neg_sizes, "N-C07-5": _wit_bool_order, "N-C07-6": _wit_squeeze_zero_mode}
+# N-C07-3 / N-C07-4 / N-C07-5 (found in wave 4) are open.  N-C07-5 has no trigger: boolean orders are not in the stream (the
+# request model of Np/NpZ3b.v has no boolean list elements), the witness alone is replayed on every run.  N-C07-6 (dense squeeze
+# with a size-0 mode) has no trigger either: the squeeze theorems assume positive sizes (sqz keeps d > 1), dense holders with a
+# size-0 mode are in the permute_d / reshape_d stream only (sptensor refuses such shapes).  N-C07-1 (squeeze of an empty all-singleton sptensor) and N-C07-2 (int old_modes) are repaired in /repo;
 # their input classes stay in the stream (squeeze_sp over every all-singleton shape with fill 0; reshape_sp with
 # "old_int") and are no longer attributed: a regression is reported as a VIOLATION.
